@@ -45,3 +45,8 @@ def expected(model):
     exp = molekel.expected(model)
     exp[WFN] = wm.public_wfn(model["wfn"])
     return exp
+
+
+# Relative tolerance of the wavefunction comparison: coordinates may be given in angstrom (CODATA drift of the conversion factor,
+# 7e-10 relative, acts on tight functions through 2 alpha r) and numbers are printed with 12-13 significant digits.
+WFN_REL_TOL = 2e-5
